@@ -134,9 +134,9 @@ def judgeInit (g : Graph) (cfg : Cfg) (targets obs : List Mod) (result : String)
 
 def handleInit (f : List String) : String × String × String :=
   match f with
-  | [gc, ts, obsS, result, keysS, flagsS] =>
+  | [gc, ts, obsS, result, keysS, flagsS, depsB, depsA, obs2S, result2, keys2S] =>
     match gc.splitOn ";" with
-    | [n, deps, hi, ie, hs, op] =>
+    | [n, deps, hi, ie, hs, op, _names] =>
       let g := parseGraph n deps
       let cfg : Cfg := { hasInit := bitsOf hi, initErr := bitsOf ie, hasSvc := bitsOf hs }
       let opts : List (List ModOpt) := if op == "-" then List.replicate g.n [] else op.toList.map optsOf
@@ -148,10 +148,27 @@ def handleInit (f : List String) : String × String × String :=
       let mflags := showNats (userVisibleModules opts) ++ ";" ++
         (if flags.isEmpty then "-" else String.ofList (flags.map fun p => if p.1 then '1' else '0')) ++ ";" ++
         (if flags.isEmpty then "-" else String.ofList (flags.map fun p => if p.2 then '1' else '0')) ++ ";1"
-      let model := [mlog, mres, mkeys, mflags]
+      -- the graph is immutable: DependenciesForModule before and after, and a second InitModuleServices on
+      -- the same manager (fresh initMap / servicesMap), are computed from the same model graph
+      let fuel := g.n + 2
+      let mdeps := if g.n == 0 then "-" else
+        "/".intercalate ((List.range g.n).map fun m => showNats (((dependenciesFor g fuel m).getD []).mergeSort))
+      let obs2 := listOfNat obs2S
+      let (mlog2, mres2, mkeys2) := runInit g cfg targets obs2
+      let model := [mlog, mres, mkeys, mflags, mdeps, mdeps, mlog2, mres2, mkeys2]
       let diff := if result.startsWith "add-rejected" then "-"
-        else if model == [obsS, result, keysS, flagsS] then "-" else "model=" ++ " ".intercalate model
-      let j := if result.startsWith "add-rejected" then ["dag-edge-rejected"] else judgeInit g cfg targets obs result keys
+        else if model == [obsS, result, keysS, flagsS, depsB, depsA, obs2S, result2, keys2S] then "-"
+        else "model=" ++ " ".intercalate model
+      -- judge: the reported transitive dependencies are those of the declared edges, before and after
+      -- initialisation; the second initialisation satisfies the statement like the first
+      let jdeps := if g.n == 0 then "-" else
+        "/".intercalate ((List.range g.n).map fun m => showNats ((reach g m).mergeSort))
+      let j := if result.startsWith "add-rejected" then ["dag-edge-rejected"] else
+        judgeInit g cfg targets obs result keys ++
+        (judgeInit g cfg targets obs2 result2 (listOfNat keys2S)).map (fun k => "second-init:" ++ k) ++
+        (if depsB != jdeps then ["dependencies-misreported"] else []) ++
+        (if depsA != jdeps then ["dependency-graph-changed-by-init"] else []) ++
+        (if result2 != result || keys2S != keysS then ["second-init-differs"] else [])
       -- flags: a user-visible module is targetable; nothing is said about unregistered modules
       let j := match flagsS.splitOn ";" with
         | [_, vb, tb, sorted] =>
@@ -318,7 +335,7 @@ def handleRun (f : List String) : String × String × String :=
   match f with
   | [hd, actsS, obs] =>
     match hd.splitOn ";" with
-    | [n, deps, hi, ie, hs, ts] =>
+    | [n, deps, hi, ie, hs, ts, _names] =>
       let g := parseGraph n deps
       let cfg : Cfg := { hasInit := bitsOf hi, initErr := bitsOf ie, hasSvc := bitsOf hs }
       let targets := listOfNat ts
